@@ -42,8 +42,8 @@ def validate_announce_nlri(nlri: 'NLRI', nexthop: IP) -> str | None:
 
     Withdrawals don't need this validation (RFC 4271: MP_UNREACH_NLRI has no nexthop).
     """
-    # 1. Nexthop validation - required for unicast/multicast announces
-    if nlri.safi in (SAFI.unicast, SAFI.multicast):
+    # 1. Nexthop validation - required for every announce but flow rules (their MP_REACH_NLRI may carry none)
+    if nlri.safi not in (SAFI.flow_ip, SAFI.flow_vpn):
         # Check for undefined nexthop (IP.NoNextHop has afi=AFI.undefined)
         if nexthop.afi == AFI.undefined:
             return f'announce requires nexthop: {nlri}'
